@@ -60,6 +60,10 @@ def connect(random_value=None):
         con.create_aggregate(nm, 1, mk(sa, ro))
     if random_value is not None:
         con.create_function("random", 0, lambda: random_value)
+        if random_value == 0.25:
+            # neutralised noise: cos(2 pi 0.25) is 6e-17 in floats, and a sigma of 1e308 (unbounded sensitivity) turns that
+            # into 1e292; the Box-Muller cosine is the only cosine in the rendered DP queries: make it exactly 0
+            con.create_function("cos", 1, lambda x: 0.0)
     return con
 
 
